@@ -368,12 +368,12 @@ pub fn run(args: &Args) -> ! {
     }
     let dl = args.deadline();
     let mut rep = Report::new("C39", "fault_enumeration");
-    let max_len = args.extra_usize("files").unwrap_or(args.tier.pick(3, 4));
-    let pairs = args.tier == Tier::Thorough;
+    let thorough = args.tier == Tier::Thorough;
+    let max_len = args.extra_usize("files").unwrap_or(args.tier.pick(2, 4)).min(BANK.len());
 
     // workloads: every sequence of 1..=max_len distinct bank files that contains a file needing reformatting
     let mut workloads: Vec<Vec<usize>> = Vec::new();
-    for n in 1..=max_len.min(BANK.len()) {
+    for n in 1..=max_len {
         fn rec(cur: &mut Vec<usize>, n: usize, out: &mut Vec<Vec<usize>>) {
             if cur.len() == n {
                 if cur.iter().any(|&b| BANK[b].0 != "D") {
@@ -391,85 +391,141 @@ pub fn run(args: &Args) -> ! {
         }
         rec(&mut Vec::new(), n, &mut workloads);
     }
+    // the core: every 1-file workload, one 2-file workload of two files that need reformatting and one that
+    // starts with the already formatted file
+    let core_ws: Vec<Vec<usize>> = vec![vec![0], vec![1], vec![2], vec![0, 1], vec![3, 0]].into_iter().filter(|w| w.len() <= max_len).collect();
+    let is_core_fault = |c: &Call, k: &str, a: usize| -> bool {
+        match k {
+            "kill-before" | "kill-after" | "enospc" | "eio" => true,
+            "short-kill" => {
+                let len: usize = c.detail.strip_prefix("len=").and_then(|s| s.parse().ok()).unwrap_or(0);
+                a == len / 2
+            }
+            _ => false,
+        }
+    };
 
     let mut all = Stats::default();
     let raws: Mutex<Vec<Raw>> = Mutex::new(Vec::new());
-    let mut completed_len = 0usize;
     let mut history_calls = 0u64;
     let mut injected = 0u64;
     let mut max_hist = 0usize;
-    let mut complete = true;
     let mut sample_hist: Option<Value> = None;
+    let mut refs: BTreeMap<Vec<usize>, Reference> = BTreeMap::new();
+    let mut phases_done: Vec<String> = Vec::new();
 
-    'outer: for n in 1..=max_len {
-        let ws: Vec<&Vec<usize>> = workloads.iter().filter(|w| w.len() == n).collect();
-        // fault-free references (sequential: cheap)
-        let mut refs = Vec::new();
-        for w in &ws {
-            let r1 = reference(&env, w).unwrap_or_else(|e| die(&format!("C39 reference run: {e}")));
-            let r2 = reference(&env, w).unwrap_or_else(|e| die(&format!("C39 reference run: {e}")));
-            let key = |r: &Reference| r.history.iter().map(|c| format!("{} {} {}", c.op, c.path, c.detail)).collect::<Vec<_>>();
-            if key(&r1) != key(&r2) || r1.formatted != r2.formatted {
-                die("C39: the fault-free run is not deterministic (history or result differs between two runs)");
-            }
-            history_calls += r1.history.len() as u64;
-            max_hist = max_hist.max(r1.history.len());
-            if sample_hist.is_none() {
-                sample_hist = Some(json!(r1.history.iter().map(|c| format!("{} {} {} {}", c.idx, c.op, c.path, c.detail)).collect::<Vec<_>>()));
-            }
-            refs.push(r1);
-        }
-        // single faults: every call × menu
-        let mut jobs: Vec<(usize, usize, Fault)> = Vec::new();
-        for (wi, r) in refs.iter().enumerate() {
-            for (ci, c) in r.history.iter().enumerate() {
-                for (k, a) in menu(c) {
-                    jobs.push((wi, ci, Fault { at: c.idx, kind: k, arg: a }));
+    // phases, in order; each is complete or the run stops there
+    // (name, workloads, which faults of the menu, fault sequences?)
+    let rest2: Vec<Vec<usize>> = workloads.iter().filter(|w| w.len() <= 2 && !core_ws.contains(w)).cloned().collect();
+    let big: Vec<Vec<usize>> = workloads.iter().filter(|w| w.len() > 2).cloned().collect();
+    let mut phases: Vec<(&str, Vec<Vec<usize>>, u8)> = vec![
+        ("core: 1-file workloads + [A,B] + [D,A] × {kill-before, kill-after, short-kill(len/2), enospc, eio} at every call", core_ws.clone(), 0),
+        ("core workloads × rest of the fault menu", core_ws.clone(), 1),
+        ("remaining ≤2-file workloads × full fault menu", rest2, 2),
+    ];
+    if !big.is_empty() {
+        phases.push(("3- and 4-file workloads × full fault menu", big, 2));
+    }
+    if thorough {
+        phases.push(("fault sequences on ≤2-file workloads: error at i, then kill at every later call", workloads.iter().filter(|w| w.len() <= 2).cloned().collect(), 3));
+    }
+    let core_name = phases[0].0.to_string();
+
+    for (name, ws, mode) in &phases {
+        // fault-free references (two runs each, in parallel), for workloads not seen yet
+        let need: Vec<&Vec<usize>> = ws.iter().filter(|w| !refs.contains_key(*w)).collect();
+        let got: Mutex<Vec<(Vec<usize>, Result<Reference, String>)>> = Mutex::new(Vec::new());
+        let (_, ok) = par_range(need.len() as u64, args.threads, &dl, |i, _| {
+            let w = need[i as usize];
+            let r = reference(&env, w).and_then(|r1| {
+                let r2 = reference(&env, w)?;
+                let key = |r: &Reference| r.history.iter().map(|c| format!("{} {} {}", c.op, c.path, c.detail)).collect::<Vec<_>>();
+                if key(&r1) != key(&r2) || r1.formatted != r2.formatted {
+                    return Err("the fault-free run is not deterministic (history or result differs between two runs)".to_string());
                 }
-            }
+                Ok(r1)
+            });
+            got.lock().unwrap().push((w.clone(), r));
+        });
+        if !ok {
+            break;
         }
-        let second_jobs: Mutex<Vec<(usize, usize, Fault, Call, Fault)>> = Mutex::new(Vec::new());
-        let (st, ok) = par_range(jobs.len() as u64, args.threads, &dl, |i, st| {
-            let (wi, ci, f) = &jobs[i as usize];
-            let w = ws[*wi];
-            let refr = &refs[*wi];
-            let c = &refr.history[*ci];
-            let r = run_once(&env, w, std::slice::from_ref(f));
-            let j = judge(w, refr, c, f, &r);
-            st.eval(true);
-            st.outcome(&j.outcome);
-            if j.undecided {
-                st.undecided += 1;
+        for (w, r) in got.into_inner().unwrap() {
+            let r = r.unwrap_or_else(|e| die(&format!("C39 reference run: {e}")));
+            history_calls += r.history.len() as u64;
+            max_hist = max_hist.max(r.history.len());
+            if sample_hist.is_none() || w == vec![0] {
+                sample_hist = Some(json!(r.history.iter().map(|c| format!("{} {} {} {}", c.idx, c.op, c.path, c.detail)).collect::<Vec<_>>()));
             }
-            if i % 97 == 0 {
-                st.sample(|| json!({"workload": w.iter().map(|&b| BANK[b].0).collect::<Vec<_>>(), "call": format!("{} {} {} {}", c.idx, c.op, c.path, c.detail), "fault": f.kind, "arg": f.arg, "outcome": j.outcome}));
-            }
-            if let Some(sig) = j.signature {
-                raws.lock().unwrap().push(Raw { signature: sig, workload: w.clone(), call: c.clone(), faults: vec![f.clone()], second: None, detail: j.detail });
-            }
-            // fault sequences (thorough): after a one-shot error at i, a kill at every later call of that run
-            if pairs && ["enospc", "efbig", "eio"].contains(&f.kind.as_str()) && w.len() <= 2 {
-                let mut v = second_jobs.lock().unwrap();
-                for c2 in r.log.iter().filter(|c2| c2.idx > f.at) {
-                    for k2 in ["kill-before", "kill-after"] {
-                        v.push((*wi, *ci, f.clone(), c2.clone(), Fault { at: c2.idx, kind: k2.into(), arg: 0 }));
+            refs.insert(w, r);
+        }
+
+        if *mode <= 2 {
+            let mut jobs: Vec<(&Vec<usize>, usize, Fault)> = Vec::new();
+            for w in ws {
+                let r = &refs[w];
+                for (ci, c) in r.history.iter().enumerate() {
+                    for (k, a) in menu(c) {
+                        let core = is_core_fault(c, &k, a);
+                        if (*mode == 0 && core) || (*mode == 1 && !core) || *mode == 2 {
+                            jobs.push((w, ci, Fault { at: c.idx, kind: k, arg: a }));
+                        }
                     }
                 }
             }
-        });
-        all.merge(st);
-        injected += jobs.len() as u64;
-        if !ok {
-            complete = false;
-            break 'outer;
-        }
-        let mut sj = second_jobs.into_inner().unwrap();
-        sj.sort_by(|a, b| (a.0, a.1, &a.2, a.3.idx, &a.4).cmp(&(b.0, b.1, &b.2, b.3.idx, &b.4)));
-        if !sj.is_empty() {
+            let (st, ok) = par_range(jobs.len() as u64, args.threads, &dl, |i, st| {
+                let (w, ci, f) = &jobs[i as usize];
+                let refr = &refs[*w];
+                let c = &refr.history[*ci];
+                let r = run_once(&env, w, std::slice::from_ref(f));
+                let j = judge(w, refr, c, f, &r);
+                st.eval(true);
+                st.outcome(&j.outcome);
+                if j.undecided {
+                    st.undecided += 1;
+                }
+                if i % 97 == 0 {
+                    st.sample(|| json!({"workload": w.iter().map(|&b| BANK[b].0).collect::<Vec<_>>(), "call": format!("{} {} {} {}", c.idx, c.op, c.path, c.detail), "fault": f.kind, "arg": f.arg, "outcome": j.outcome}));
+                }
+                if let Some(sig) = j.signature {
+                    raws.lock().unwrap().push(Raw { signature: sig, workload: (*w).clone(), call: c.clone(), faults: vec![f.clone()], second: None, detail: j.detail });
+                }
+            });
+            all.merge(st);
+            injected += jobs.len() as u64;
+            if !ok {
+                break;
+            }
+        } else {
+            // fault sequences: a one-shot error at i, then a kill at every later call of the run that follows
+            let mut firsts: Vec<(&Vec<usize>, usize, Fault)> = Vec::new();
+            for w in ws {
+                for (ci, c) in refs[w].history.iter().enumerate() {
+                    for k in ["enospc", "efbig", "eio"] {
+                        firsts.push((w, ci, Fault { at: c.idx, kind: k.into(), arg: 0 }));
+                    }
+                }
+            }
+            let second_jobs: Mutex<Vec<(usize, Call, Fault)>> = Mutex::new(Vec::new());
+            let (_, ok) = par_range(firsts.len() as u64, args.threads, &dl, |i, _| {
+                let (w, _, f) = &firsts[i as usize];
+                let r = run_once(&env, w, std::slice::from_ref(f));
+                let mut v = second_jobs.lock().unwrap();
+                for c2 in r.log.iter().filter(|c2| c2.idx > f.at) {
+                    for k2 in ["kill-before", "kill-after"] {
+                        v.push((i as usize, c2.clone(), Fault { at: c2.idx, kind: k2.into(), arg: 0 }));
+                    }
+                }
+            });
+            if !ok {
+                break;
+            }
+            let mut sj = second_jobs.into_inner().unwrap();
+            sj.sort_by(|a, b| (a.0, a.1.idx, &a.2).cmp(&(b.0, b.1.idx, &b.2)));
             let (st, ok) = par_range(sj.len() as u64, args.threads, &dl, |i, st| {
-                let (wi, ci, f1, c2, f2) = &sj[i as usize];
-                let w = ws[*wi];
-                let refr = &refs[*wi];
+                let (fi, c2, f2) = &sj[i as usize];
+                let (w, ci, f1) = &firsts[*fi];
+                let refr = &refs[*w];
                 let c1 = &refr.history[*ci];
                 let r = run_once(&env, w, &[f1.clone(), f2.clone()]);
                 let mut j = judge(w, refr, c1, f1, &r);
@@ -480,18 +536,21 @@ pub fn run(args: &Args) -> ! {
                 st.eval(true);
                 st.outcome(&format!("{} then {}@{}", j.outcome, f2.kind, c2.op));
                 if let Some(sig) = j.signature {
-                    raws.lock().unwrap().push(Raw { signature: sig, workload: w.clone(), call: c1.clone(), faults: vec![f1.clone(), f2.clone()], second: Some(c2.clone()), detail: j.detail });
+                    raws.lock().unwrap().push(Raw { signature: sig, workload: (*w).clone(), call: c1.clone(), faults: vec![f1.clone(), f2.clone()], second: Some(c2.clone()), detail: j.detail });
                 }
             });
             all.merge(st);
             injected += sj.len() as u64;
             if !ok {
-                complete = false;
-                break 'outer;
+                break;
             }
         }
-        completed_len = n;
+        phases_done.push(name.to_string());
     }
+    let core_complete = phases_done.first() == Some(&core_name);
+    let complete = phases_done.len() == phases.len();
+    let completed_len = if complete { max_len } else if phases_done.len() >= 3 { 2 } else if core_complete { 1 } else { 0 };
+    let pairs = thorough;
 
     // one witness per (signature, faulted operation): the smallest workload, earliest call, first menu entry
     let mut raws = raws.into_inner().unwrap();
@@ -525,7 +584,10 @@ pub fn run(args: &Args) -> ! {
         "bank_files": BANK.len(),
         "max_files_per_workload": max_len,
         "largest_workload_size_completed": completed_len,
-        "workloads": workloads.iter().filter(|w| w.len() <= completed_len.max(1)).count(),
+        "phases_in_order": phases.iter().map(|p| p.0).collect::<Vec<_>>(),
+        "phases_completed": phases_done,
+        "core_complete": core_complete,
+        "workloads": workloads.len(),
         "fault_menu": "kill-before, kill-after, enospc, enospc-sticky, efbig, eio on every call; short-kill j∈{0,1,len/2,len-1} and short-ok j∈{0,1,len/2} on every write",
         "fault_sequences": if pairs { "one-shot error at i, then kill-before/kill-after at every later call (workloads ≤ 2 files)" } else { "single faults (and the sticky disk-full sequence)" },
     });
